@@ -96,8 +96,8 @@ def check_open_events(events, images, sizes, rpc_req, out):
                 out.append(harness.disc("read-outside-file", "open_alos2", f"<= {sizes[name]}", pos + size, image=name))
                 break
             last_end = max(last_end, pos + size)
-        cats = [e for e in events if e[0] == "cat_file" and e[1].endswith(name)]
-        if cats:
+        cats = [e for e in events if e[0] == "cat_file" and e[1].endswith(name) and (e[2] is None or e[3] is None)]
+        if cats and lines > rpc:
             out.append(harness.disc("whole-image-fetched", "open_alos2", "chunked reads", cats[:2], image=name))
 
 
@@ -144,9 +144,13 @@ def run_case(case):
             if foreign:
                 out.append(harness.disc("other-file-touched", "load", f"only {name}", foreign[:2], expr=expr))
             reads = [e for e in events if e[0] == "read" and e[1].endswith(name) and e[4] > 0]
-            cats = [e for e in events if e[0] == "cat_file" and e[1].endswith(name)]
-            if cats:
-                out.append(harness.disc("whole-image-fetched", "load", "one read per group", cats[:2], expr=expr))
+            # a ranged cat_file is a read request like any other; only an unbounded one fetches the file
+            for e in events:
+                if e[0] == "cat_file" and e[1].endswith(name):
+                    if e[2] is None or e[3] is None:
+                        out.append(harness.disc("whole-image-fetched", "load", "one read per group", e, expr=expr))
+                    else:
+                        reads.append(("read", e[1], None, e[2], e[3] - e[2], e[3] - e[2]))
             if sel_rows.size == 0:
                 if reads:
                     out.append(harness.disc("read-outside-span", "load", "no read for an empty selection", reads[:2], expr=expr))
